@@ -85,7 +85,128 @@ func simpleNode(code []byte) bool {
 	return false
 }
 
+// nodeInstrs decodes a node's code up to and including its first HALT.
+func nodeInstrs(code []byte) (is []GInstr, halted bool) {
+	b := code
+	for len(b) >= 2 {
+		s, rest, err, p := decodeStep(b)
+		if err != nil || p != nil {
+			return nil, false
+		}
+		gi, ok := parseGInstr(s)
+		if !ok {
+			return nil, false
+		}
+		is = append(is, gi)
+		if gi.Op == "HALT" {
+			return is, true
+		}
+		b = rest
+	}
+	return is, false
+}
+
+// calmNode: executing the node's code from the top neither navigates nor can fail: no MOVE/CATCH/CROAK before the
+// HALT, and every symbol it loads has handlers that never fail, set no flags and respect the declared size.
+func calmNode(ec *eCase, name string) bool {
+	code, ok := ec.nodes[name]
+	if !ok {
+		return false
+	}
+	is, halted := nodeInstrs(code)
+	if !halted {
+		return false
+	}
+	sinks := 0
+	for _, i := range is {
+		switch i.Op {
+		case "MOVE", "CATCH", "CROAK", "RELOAD":
+			return false
+		case "MSINK":
+			sinks++
+		case "LOAD":
+			if i.N == 0 {
+				sinks++
+			}
+			have := false
+			for _, r := range ec.exts {
+				if r.sym != i.A {
+					continue
+				}
+				have = true
+				if r.fail || r.status != 0 || len(r.set) > 0 || len(r.reset) > 0 || (i.N > 0 && len(r.content) > int(i.N)) {
+					return false
+				}
+			}
+			if !have {
+				return false
+			}
+		}
+	}
+	return sinks <= 1
+}
+
+func appHas(ec *eCase, ops ...string) bool {
+	for _, code := range ec.nodes {
+		b := code
+		for len(b) >= 2 {
+			s, rest, err, p := decodeStep(b)
+			if err != nil || p != nil {
+				break
+			}
+			for _, o := range ops {
+				if strings.HasPrefix(s, o+":") || s == o {
+					return true
+				}
+			}
+			b = rest
+		}
+	}
+	return false
+}
+
+// loadSizes: declared LOAD sizes per symbol (only symbols declared with one size everywhere)
+func loadSizes(ec *eCase) map[string]uint32 {
+	m := map[string]uint32{}
+	bad := map[string]bool{}
+	for _, code := range ec.nodes {
+		b := code
+		for len(b) >= 2 {
+			s, rest, err, p := decodeStep(b)
+			if err != nil || p != nil {
+				break
+			}
+			if gi, ok := parseGInstr(s); ok && gi.Op == "LOAD" {
+				if v, have := m[gi.A]; have && v != gi.N {
+					bad[gi.A] = true
+				}
+				m[gi.A] = gi.N
+			}
+			b = rest
+		}
+	}
+	for k := range bad {
+		delete(m, k)
+	}
+	return m
+}
+
+func isPrefixPath(a, b []string) bool {
+	if len(a) > len(b) {
+		return false
+	}
+	for i := range a {
+		if a[i] != b[i] {
+			return false
+		}
+	}
+	return true
+}
+
 func engineOracles(c *Ctx, ec *eCase, recs []reqRec) {
+	hasCroak := appHas(ec, "CROAK")
+	hasReload := appHas(ec, "RELOAD")
+	sizes := loadSizes(ec)
 	pers := ec.mode != "long"
 	hasFirst := len(ec.firsts) > 0
 	var prev *reqRec
@@ -252,6 +373,8 @@ func engineOracles(c *Ctx, ec *eCase, recs []reqRec) {
 					} else if r.f == "ok" && !flagBit(prev.flags, 6) && !strings.HasPrefix(string(r.out), "invalid input: '"+string(in)+"'") {
 						c.Fail("C03", "nomatch-no-message", fmt.Sprintf("%s: no INCMP matches but the page does not start with the invalid-input message: %q", where, trunc(string(r.out), 60)))
 					}
+				} else if !ended {
+					// instructions after the INCMP block run after the move and may navigate themselves
 				} else if code, have := ec.nodes[t]; have && simpleNode(code) && !flagBit(prev.flags, 6) && r.cont {
 					exp := append(append([]string{}, prev.path...), t)
 					if strings.Join(exp, "/") != strings.Join(r.path, "/") || r.idx != 0 {
@@ -265,6 +388,91 @@ func engineOracles(c *Ctx, ec *eCase, recs []reqRec) {
 				} else if t == "<" && prev.idx > 0 && !flagBit(prev.flags, 6) {
 					if strings.Join(prev.path, "/") != strings.Join(r.path, "/") || r.idx != prev.idx-1 {
 						c.Fail("C04", "move-table", fmt.Sprintf("%s: '<' from %v idx %d gave %v idx %d", where, prev.path, prev.idx, r.path, r.idx))
+					}
+				} else if !flagBit(prev.flags, 6) && r.cont && ec.wf && len(prev.path) > 0 {
+					// the documented move table for the remaining targets, when the node arrived at is calm
+					var exp []string
+					expIdx := uint16(0)
+					okT := false
+					switch {
+					case t == "_" && len(prev.path) >= 2 && calmNode(ec, prev.path[len(prev.path)-2]):
+						exp, okT = append([]string{}, prev.path[:len(prev.path)-1]...), true
+					case t == "^" && calmNode(ec, prev.path[0]):
+						exp, okT = []string{prev.path[0]}, true
+						if len(prev.path) == 1 {
+							expIdx = prev.idx
+						}
+					case t == "." && calmNode(ec, prev.path[len(prev.path)-1]):
+						exp, expIdx, okT = append([]string{}, prev.path...), prev.idx, true
+					case t != "_" && t != "^" && t != "." && t != ">" && t != "<" && calmNode(ec, t) && t != prev.path[len(prev.path)-1]:
+						exp, okT = append(append([]string{}, prev.path...), t), true
+					}
+					if okT && (strings.Join(exp, "/") != strings.Join(r.path, "/") || r.idx != expIdx) {
+						c.Fail("C04", "move-table", fmt.Sprintf("%s: target %q from %v idx %d should give %v idx %d, got %v idx %d", where, t, prev.path, prev.idx, exp, expIdx, r.path, r.idx))
+					}
+					// ---- C05: entering a calm node calls exactly the LOADs whose symbol is not visible yet
+					if okT && t != "_" && t != "^" && t != "." && !hasCroak && strings.Join(exp, "/") == strings.Join(r.path, "/") {
+						is, _ := nodeInstrs(ec.nodes[t])
+						for _, gi := range is {
+							if gi.Op != "LOAD" {
+								continue
+							}
+							visible := false
+							for li, fr := range prev.caSnap.frames {
+								if _, have := fr[gi.A]; have && li <= len(prev.path) {
+									visible = true
+								}
+							}
+							called := 0
+							for _, cl := range r.calls {
+								if cl.sym == gi.A {
+									called++
+								}
+							}
+							if visible && called > 0 {
+								c.Fail("C05", "load-while-visible", fmt.Sprintf("%s: LOAD %s ran its function although the symbol was visible (loaded at an outer level)", where, gi.A))
+							}
+							if !visible && called != 1 {
+								c.Fail("C05", "load-not-run", fmt.Sprintf("%s: entering %q, LOAD %s of a symbol that is not visible ran its function %d times", where, t, gi.A, called))
+							}
+						}
+					}
+				}
+			}
+		}
+		// ---- C05: scope lifetime and size limits, from the stored cache
+		if r.state != "nostate" && r.x != "panic" && ec.wf && !hasCroak && r.cont {
+			if len(r.caSnap.frames) > len(r.path)+1 {
+				for li := len(r.path) + 1; li < len(r.caSnap.frames); li++ {
+					for k := range r.caSnap.frames[li] {
+						c.Fail("C05", "value-outlives-level", fmt.Sprintf("%s: %q is still cached at level %d although the session is at depth %d (%v)", where, k, li, len(r.path), r.path))
+					}
+				}
+			}
+			for li, fr := range r.caSnap.frames {
+				for k, v := range fr {
+					if lim, ok := sizes[k]; ok && lim > 0 && len(v) > int(lim) {
+						c.Fail("C05", "oversize-value-stored", fmt.Sprintf("%s: %q holds %d bytes at level %d, its LOAD declares at most %d", where, k, len(v), li, lim))
+					}
+				}
+			}
+			if prev != nil && prev.state != "nostate" && prev.cont && prev.x == "ok" && prev.f == "ok" && r.x == "ok" && !hasReload && !refusedInput(in) &&
+				r.moves <= prev.moves+1 && // at most one move: nothing was left and re-entered in between
+				(isPrefixPath(prev.path, r.path) || isPrefixPath(r.path, prev.path)) {
+				keep := len(prev.path)
+				if len(r.path) < keep {
+					keep = len(r.path)
+				}
+				for li, fr := range prev.caSnap.frames {
+					if li > keep {
+						continue
+					}
+					for k := range fr {
+						for _, cl := range r.calls {
+							if cl.sym == k {
+								c.Fail("C05", "load-while-visible", fmt.Sprintf("%s: the function of %q ran although the symbol stayed visible at level %d (path %v -> %v)", where, k, li, prev.path, r.path))
+							}
+						}
 					}
 				}
 			}
